@@ -73,6 +73,18 @@ func c19Check(data []byte, schedule string, seed uint64, deferred bool) (kind, m
 		br := bytes.NewReader(whole)
 		_, _ = br.Seek(int64(k), io.SeekStart)
 		rd = br
+	} else if schedule == "pipe" {
+		// the read end of an OS pipe: an *os.File that is not a regular file (no size, no seeking)
+		pr, pw, perr := os.Pipe()
+		if perr != nil {
+			return "", "os.Pipe failed: n/a", false
+		}
+		go func() {
+			_, _ = pw.Write(data)
+			_ = pw.Close()
+		}()
+		defer pr.Close()
+		rd = pr
 	} else {
 		rd = c08Source(data, schedule, seed)
 	}
@@ -115,9 +127,32 @@ func c19Check(data []byte, schedule string, seed uint64, deferred bool) (kind, m
 	if res.Stream == nil {
 		return "nil-stream", "autometa.Load returned a nil stream", nt
 	}
-	out, rerr, bounded := src.ReadAllChunks(res.Stream, 4096, int64(len(data))+1<<16)
+	var out []byte
+	var rerr error
+	bounded := true
+	how := "Read"
+	if seed%3 == 0 {
+		// read a few bytes, then hand the stream to io.Copy (which uses the stream's WriteTo when it has one)
+		how = "Read then io.Copy"
+		head := make([]byte, 1+int(seed>>8)%40)
+		n, herr := io.ReadFull(res.Stream, head)
+		out = append(out, head[:n]...)
+		if herr == nil {
+			rest := &boundedBuf{limit: int64(len(data)) + 1<<16}
+			_, rerr = io.Copy(rest, res.Stream)
+			out = append(out, rest.b...)
+			if rest.over {
+				bounded = false
+			}
+			if rerr == errBoundedBuf {
+				rerr = nil
+			}
+		}
+	} else {
+		out, rerr, bounded = src.ReadAllChunks(res.Stream, 4096, int64(len(data))+1<<16)
+	}
 	if !bounded || rerr != nil || !bytes.Equal(out, data) {
-		return "stream", fmt.Sprintf("autometa.Load's stream does not replay the input: %d bytes that %s (input %d bytes), err %v", len(out), firstDiff(out, data), len(data), rerr), nt
+		return "stream", fmt.Sprintf("autometa.Load's stream (drained by %s) does not replay the input: %d bytes that %s (input %d bytes), err %v", how, len(out), firstDiff(out, data), len(data), rerr), nt
 	}
 	return "", "ok", nt
 }
@@ -280,6 +315,9 @@ func c19Inputs(seed int64, thorough bool) []c19Input {
 	for _, f := range boundaryFiles(seed, thorough) {
 		add(f.Name, f.Bytes)
 	}
+	for _, f := range bigFiles(seed) {
+		add(f.Name, f.Bytes)
+	}
 	for _, f := range hostileSpecials() {
 		add(f.Name, f.Bytes)
 	}
@@ -302,7 +340,10 @@ func runC19(r *core.Run) {
 	var outcomes [3]int64
 	core.ParallelFor(len(in), 16, func(i int) {
 		x := in[i]
-		for si, sc := range []string{"all", "1", "random17", fmt.Sprintf("seeker@%d", 1+i%23), "data+eof", "4096+data+eof"} {
+		for si, sc := range []string{"all", "1", "random17", fmt.Sprintf("seeker@%d", 1+i%23), "data+eof", "4096+data+eof", "pipe", "zero-nil"} {
+			if sc == "pipe" && i%4 != 0 {
+				continue
+			}
 			if sc == "1" && len(x.bytes) > 100000 {
 				continue
 			}
